@@ -21,12 +21,14 @@ RULE = ('cases = (1..6 options over kinds {flag store_true, flag store_false, in
         'group / context / Value objects and builds them again from the same descriptors with a fresh ParsedOptions, while the bound variables, the ValueMap and the notifier log '
         'survive; each run = 0..3 sources + mostly assignDefaults, values drawn anew per run, mapped kinds favoured; 20 % of the cases put a DECLINING typed notifier with a default first, mentioned by '
         'the first source of a run and again by later sources, over 1..3 runs, next to keeping / custom / plain options); observation of a typed notifier = objects made / deleted by the library / deleted by the '
-        'context / held object / every delivered value in order; '
+        'context / held object / every delivered value in order; 18 % of the cases fill their sources pair by pair through the option pointer or BY NAME (op 7, '
+        'ParsedValues::add(name, value)) with keys that are exact names, strict prefixes of one or several names, extensions, alias characters / alias keys "-a", names followed by a NUL byte, '
+        'other spellings, unknown keys and the empty key - option names are limit (alias l), level, length, lim (alias m), o4, o5 - followed by sources that name the options exactly and by assignDefaults; '
         'non-trivial = at least one assign op with >= 1 pair; distinct = distinct case tuples')
 TRUSTED_BASE = ['typed parsers (string_cast<int/bool/vector<int>>) are abstract in the theorems; their concrete model used for the '
                 'correspondence covers the decimal sublanguage only (C16 covers conversions)',
                 'props/C15.py reference semantics (oracle on the implementation)']
-ASSUMPTIONS = ['value / implicit / default strings are NUL-free', 'a new run re-builds the option set from the SAME descriptors and starts with a fresh ParsedOptions', 'numeric strings in generated cases are decimal (no 0x / leading-0 octal / imax keywords / brackets)',
+ASSUMPTIONS = ['value / implicit / default strings are NUL-free (by-name KEYS may hold NUL bytes: the key ends there)', 'the keys of a context (long names, alias keys) are pairwise different - OptionContext::insertOption refuses anything else; checked for the names of the harness in c15_ex_by_name', 'a new run re-builds the option set from the SAME descriptors and starts with a fresh ParsedOptions', 'numeric strings in generated cases are decimal (no 0x / leading-0 octal / imax keywords / brackets)',
                'between two assign calls no value is in state value_fixed (holds initially and is re-established by every assign: c15_recorded)']
 ALLOWED_AXIOMS = []
 TECHNIQUE = 'Coq proof about an executable model of Value::parse / ParsedOptions::assign / assignDefaults + differential correspondence'
@@ -40,7 +42,9 @@ LEVEL_TEXT = ('Machine-checked proofs (Coq) over the model of ParsedOptions::ass
               '(c15_run_independent_of_earlier_runs); typed notified values (NotifiedValue<T>::doParse): the notification function is called exactly once per accepted occurrence with the parsed object and its '
               'answer only selects who owns the object - errors, recorded names, states, accepted values, first-source-wins and defaults are the same for any two answer functions '
               '(c15_notifier_answer_selects_ownership_only, c15_notifier_called_once_per_accepted_value, c15_notified_objects_accounted, c15_declined_value_is_accepted), whereas for the untyped custom value the '
-              'callback\'s answer is the validity (c15_custom_answer_is_validity); the model is tied to the code by '
+              'callback\'s answer is the validity (c15_custom_answer_is_validity); a pair added to a source BY NAME denotes a pair of the source iff its key (as a C string) equals a key of the '
+              'context\'s index - a long name or "-a" for an alias character - and any other key (strict prefix, extension, unknown, empty) vanishes from the source '
+              '(c15_by_name_exact_only, c15_by_name_key_denotes, c15_by_name_other_keys_vanish); the model is tied to the code by '
               'differential correspondence against the real classes with twenty kinds of typed targets, and an independent python oracle.')
 LEVEL_NOTE = ('Parsers are abstract in the proofs (any function string -> option value, plus what a refused string leaves in the variable, plus what re-building '
               'an option does to the model of its variable: nothing for a typed variable, "the entry is no longer the value\'s own object" for a mapped one). '
@@ -67,6 +71,54 @@ def keeps(kind, ob):
     """the answer of the notification function of the harness for the delivered object"""
     return 14 <= kind <= 17 or (kind == 18 and bool(ob) and ob[0] % 2 == 0)
 BOOL_WORDS = [('1', 1), ('0', 0), ('no', 0), ('on', 1), ('yes', 1), ('off', 0), ('true', 1), ('false', 0)]
+
+
+# ---------------------------------------------------------------- option names (harness/h_c15.cpp optName / optAlias; coq/C15/Model.v opt_name / opt_alias)
+FIRST_NAMES = ['limit', 'level', 'length', 'lim']      # names in a prefix relation
+ALIAS = {0: 'l', 3: 'm'}
+
+
+def name(i):
+    return FIRST_NAMES[i] if 0 <= i < len(FIRST_NAMES) else 'o%d' % i
+
+
+def keys_of(i):
+    """the keys under which a context's index holds option i: its long name and, with an alias character a, the key "-a" """
+    return [name(i)] + (['-' + ALIAS[i]] if i in ALIAS else [])
+
+
+def ckey(key):
+    """the key as ParsedValues::add(name, value) sees it: name.c_str()"""
+    k = [x & 255 for x in key]
+    return k[:k.index(0)] if 0 in k else k
+
+
+def resolve(n, key):
+    """SPEC of the by-name overload: the pair belongs to the option whose name (or alias key) EQUALS the key; any other key names no option of
+    the context and the pair is ignored"""
+    k = bytes(ckey(key)).decode('latin-1')
+    for i in range(n):
+        if k in keys_of(i):
+            return i
+    return None
+
+
+def denote(n, raw):
+    out = []
+    for r in raw:
+        if r[0] == 'p':
+            out.append((r[1], r[2]))
+        else:
+            i = resolve(n, r[1])
+            if i is not None:
+                out.append((i, r[2]))
+    return out
+
+
+def assign_n(n, ex, raw):
+    """an assign op whose source was filled pair by pair through the option pointer ('p', id, value) or by name ('n', key, value):
+    op[2] = the pairs the source holds according to the spec, op[3] = how it was filled"""
+    return ('assign', ex, denote(n, raw), list(raw))
 
 
 # ---------------------------------------------------------------- decoding
@@ -125,6 +177,20 @@ def decode(c):
             ops.append(('assign2', pairs))
         elif o == 6:
             ops.append(('newrun',))
+        elif o == 7:
+            he = nx() != 0
+            ex = None
+            if he:
+                ex = [nx() for _ in range(nx())]
+            raw = []
+            for _ in range(nx()):
+                if nx() != 0:
+                    k = st()
+                    raw.append(('n', k, st()))
+                else:
+                    i = nx()
+                    raw.append(('p', i, st()))
+            ops.append(assign_n(n, ex, raw))
         else:
             break
     return opts, ops
@@ -144,18 +210,22 @@ KN = ['flag', 'flag!false', 'int', 'string', 'vector<int>', 'map<int>', 'custom'
 
 def describe(c):
     opts, ops = decode(c)
-    od = ['o%d:%s%s%s%s' % (i, KN[o['kind']] if 0 <= o['kind'] < len(KN) else '?', '+composing' if o['comp'] else '',
+    od = ['%s:%s%s%s%s' % (name(i) + ('/-' + ALIAS[i] if i in ALIAS else ''), KN[o['kind']] if 0 <= o['kind'] < len(KN) else '?', '+composing' if o['comp'] else '',
                             '' if o['impl'] is None else ' implicit=%r' % s2t(o['impl']),
                             '' if o['dflt'] is None else ' default=%r' % s2t(o['dflt'])) for i, o in enumerate(opts)]
     pd = []
     for op in ops:
-        if op[0] == 'assign':
-            pd.append('assign(%s%s)' % (', '.join('o%d=%r' % (i, s2t(v)) for i, v in op[2]),
-                                        '' if op[1] is None else '; exclude=%s' % ['o%d' % x for x in op[1]]))
+        if op[0] == 'assign' and len(op) > 3:
+            pd.append('assign(%s%s)' % (', '.join('%s=%r' % (name(r[1]), s2t(r[2])) if r[0] == 'p' else 'BY-NAME[%r]=%r' % (s2t(r[1]), s2t(r[2]))
+                                                  for r in op[3]),
+                                        '' if op[1] is None else '; exclude=%s' % [name(x) for x in op[1]]))
+        elif op[0] == 'assign':
+            pd.append('assign(%s%s)' % (', '.join('%s=%r' % (name(i), s2t(v)) for i, v in op[2]),
+                                        '' if op[1] is None else '; exclude=%s' % [name(x) for x in op[1]]))
         elif op[0] == 'add':
-            pd.append('parsed.add(%s)' % ', '.join('"o%d"%s' % (i, '' if i < len(opts) else '[foreign]') for i in op[1]))
+            pd.append('parsed.add(%s)' % ', '.join('"%s"%s' % (name(i), '' if i < len(opts) else '[foreign]') for i in op[1]))
         elif op[0] == 'assign2':
-            pd.append('assign[second context](%s)' % ', '.join('o%d=%r' % (i, s2t(v)) for i, v in op[1]))
+            pd.append('assign[second context](%s)' % ', '.join('%s=%r' % (name(i), s2t(v)) for i, v in op[1]))
         elif op[0] == 'newrun':
             pd.append('NEW RUN (option set re-built; variables and ValueMap kept)')
         else:
@@ -430,6 +500,24 @@ def oracle(c, obs):
                 owned[i] = True
                 state[i] = 1
         # compare
+        if op[0] == 'assign' and len(op) > 3:
+            # a source filled BY NAME: a key that is not exactly a name of the context names no option - it must not be taken for the option
+            # it happens to be a prefix of
+            pk = peek_obs(obs, pos[0], n)
+            for r in op[3]:
+                if r[0] != 'n' or resolve(n, r[1]) is not None or pk is None:
+                    continue
+                k = bytes(ckey(r[1])).decode('latin-1')
+                for j in range(n):
+                    if not name(j).startswith(k):
+                        continue
+                    g_err, recs = pk
+                    st_j, cnt_j, content_j = recs[j]
+                    if (cnt_j == 1 and j not in parsed) \
+                            or (g_err is not None and g_err[1] == j and list(g_err[2]) == list(r[2])
+                                and (exp_err is None or (exp_err[1], list(exp_err[2])) != (j, list(r[2])))) \
+                            or (opts[j]['comp'] and tn[j] is None and not dirty[j] and content_j != var[j]):
+                        return ['value-assigned-to-option-not-mentioned-by-name']
         et = take(1)
         if not et:
             return ['observation-too-short']
@@ -484,6 +572,29 @@ def oracle(c, obs):
             if not dirty[i] and content != var[i]:
                 return ['variable-differs:' + KN[opts[i]['kind']] + (':in-run-%d-over-the-same-targets' % (runs + 1) if runs else '')]
     return []
+
+
+def peek_obs(obs, p, n):
+    """the observation of one op starting at p, not consumed: (error | None, [(state, count, content)] per option)"""
+    try:
+        et = obs[p]
+        p += 1
+        err = None
+        if et != 0:
+            k, ln = obs[p], obs[p + 1]
+            err = (et, k, list(obs[p + 2:p + 2 + ln]))
+            p += 2 + ln
+        p += 2
+        recs = []
+        for _ in range(n):
+            s_, cnt, ln = obs[p], obs[p + 1], obs[p + 2]
+            recs.append((s_, cnt, list(obs[p + 3:p + 3 + ln])))
+            p += 3 + ln
+        if p > len(obs):
+            return None
+        return err, recs
+    except (IndexError, TypeError):
+        return None
 
 
 def nontrivial(c, obs):
@@ -713,6 +824,96 @@ def gen_declining(rnd):
     return enc
 
 
+def rand_key(rnd, n):
+    """a key for ParsedValues::add(name, value) and the option a value for it should suit: exact names, strict prefixes (of one / of several
+    names), extensions, alias characters and alias keys, unknown keys, the empty key, a name followed by a NUL byte"""
+    i = rnd.randrange(n)
+    nm = name(i)
+    r = rnd.random()
+    if r < 0.34:
+        return nm, i
+    if r < 0.64:
+        return nm[:rnd.randrange(1, len(nm))], i                     # strict prefix (may be another option's exact name: lim / limit)
+    if r < 0.70:
+        return nm + rnd.choice(['s', 'x', '0', ' ', '=', '-']), i    # extension
+    if r < 0.76:
+        a = rnd.choice(sorted(ALIAS))
+        return rnd.choice([ALIAS[a], '-' + ALIAS[a], '-' + ALIAS[a] + 'x', '-', '--' + name(a)]), (a if a < n else i)
+    if r < 0.80:
+        return '', i
+    if r < 0.84:
+        return nm + '\0' + rnd.choice(['x', '', 'it']), i
+    if r < 0.88:
+        return nm[:rnd.randrange(1, len(nm))] + '\0' + nm, i
+    if r < 0.92:
+        return rnd.choice([nm.upper(), nm.capitalize(), ' ' + nm]), i
+    return rnd.choice(['zz', 'o', 'o9', 'o%d' % n, 'o%d' % (n + 1), 'verbose', 'l', 'le', 'li', 'len', 'lev', 'limi', 'o1', 'o10', 'name']), i
+
+
+def gen_by_name(rnd):
+    """Sources filled pair by pair through the option pointer or BY NAME (op 7) with all sorts of keys; afterwards sources that name options
+    exactly, and defaults: a key that is no name of the context must leave no trace - the option it is a prefix of is still unmentioned (gets
+    the later source's value / its default)."""
+    n = rnd.choice([1, 2, 3, 3, 4, 4, 5, 6, 6])
+    enc = [n]
+    kinds, impls = [], []
+    for i in range(n):
+        k = rnd.choice([2, 2, 2, 3, 3, 4, 4, 0, 1, 5, 6, 7, 8, 9, 10, 13, 14, 17, 18, 11])
+        kinds.append(k)
+        comp = 1 if rnd.random() < (0.5 if k in (4, 6, 9, 13, 17, 18) else 0.15) else 0
+        enc += [k, comp]
+        if rnd.random() < 0.15:
+            enc += [1] + enc_str(rnd.choice(['', rand_val(rnd, k, 0.1)]))
+            impls.append(True)
+        else:
+            enc += [0]
+            impls.append(k in IMPLICIT_FLAGS)
+        if rnd.random() < 0.6:
+            enc += [1] + enc_str(rand_val(rnd, k, 0.1))
+        else:
+            enc += [0]
+    p_bad = rnd.choice([0.0, 0.0, 0.05, 0.15, 0.3])
+    p_name = rnd.choice([0.5, 0.7, 1.0])
+    nsrc = rnd.choice([1, 2, 2, 3, 3, 4])
+    for j in range(nsrc):
+        if rnd.random() < 0.06:
+            enc += [rnd.choice([2, 3, 6])]
+        by_name = j == 0 or rnd.random() < 0.6
+        if not by_name:
+            # a plain source (op 1) naming options exactly
+            ids = [rnd.randrange(n) for _ in range(rnd.choice([1, 1, 2, 3]))]
+            enc += [1, 0, len(ids)]
+            for i in ids:
+                v = rand_val(rnd, kinds[i], p_bad)
+                if v == '' and not impls[i] and kinds[i] in IMPLICIT_FLAGS:
+                    v = '1'
+                enc += [i] + enc_str(v)
+            continue
+        enc += [7]
+        if rnd.random() < 0.2:
+            ex = [rnd.randrange(n + 1) for _ in range(rnd.randint(0, 2))]
+            enc += [1, len(ex)] + ex
+        else:
+            enc += [0]
+        np_ = rnd.choice([1, 1, 2, 2, 3, 4, 5])
+        enc += [np_]
+        for _ in range(np_):
+            if rnd.random() < p_name:
+                key, i = rand_key(rnd, n)
+            else:
+                key, i = None, rnd.randrange(n)
+            v = rand_val(rnd, kinds[i], p_bad)
+            if v == '' and not impls[i] and kinds[i] in IMPLICIT_FLAGS:
+                v = '1'
+            if key is None:
+                enc += [0, i] + enc_str(v)
+            else:
+                enc += [1] + enc_str(key) + enc_str(v)
+    if rnd.random() < 0.75:
+        enc += [2]
+    return enc
+
+
 def gen_case(rnd, shape=None):
     n = rnd.choice([1, 2, 2, 3, 3, 4, 5, 6])
     enc = [n]
@@ -837,6 +1038,21 @@ FIXED = [
     [1, 16, 1, 0, 0, 1, 0, 2, 0, 0, 0, 2, 49, 120, 1, 0, 1, 0, 1, 48],
     # declining int with default next to the UNTYPED custom notifier (its answer false = invalid): [o0=5 o1='!x'] -> defaults
     [2, 10, 0, 0, 1, 1, 57, 6, 0, 0, 0, 1, 0, 2, 0, 1, 53, 1, 2, 33, 120, 2],
+    # ---- sources filled BY NAME (op 7): only a key that EQUALS a name (or an alias key "-a") of the context denotes a pair ----
+    # the Example c15_ex_by_name: [limit:int level:int length:vector<int>+composing lim:int]  by name lim=1 limi=2 le=3 len=4 limitx=5 l=6 ''=7 -l=8
+    # length=9; then by name limit=5, by pointer level=6, by name len=7
+    [4, 2, 0, 0, 0, 2, 0, 0, 0, 4, 1, 0, 0, 2, 0, 0, 0, 7, 0, 9, 1, 3, 108, 105, 109, 1, 49, 1, 4, 108, 105, 109, 105, 1, 50, 1, 2, 108,
+     101, 1, 51, 1, 3, 108, 101, 110, 1, 52, 1, 6, 108, 105, 109, 105, 116, 120, 1, 53, 1, 1, 108, 1, 54, 1, 0, 1, 55, 1, 2, 45, 108, 1, 56,
+     1, 6, 108, 101, 110, 103, 116, 104, 1, 57, 7, 0, 3, 1, 5, 108, 105, 109, 105, 116, 1, 53, 0, 1, 1, 54, 1, 3, 108, 101, 110, 1, 55],
+    # the demo of seeded change C15-r15: [limit:int default 10, level:int, length:vector<int> composing]: by name (lim=99, len=5, zz=1) ->
+    # by pointer (limit=7, length=1) -> defaults: limit = 7, length = [1]
+    [3, 2, 0, 0, 1, 2, 49, 48, 2, 0, 0, 0, 4, 1, 0, 0, 7, 0, 3, 1, 3, 108, 105, 109, 2, 57, 57, 1, 3, 108, 101, 110, 1, 53, 1, 2, 122, 122, 1, 49,
+     1, 0, 2, 0, 1, 55, 2, 1, 49, 2],
+    # one option: every non-empty strict prefix of "limit" is an unambiguous prefix; only the default may reach it
+    [1, 2, 0, 0, 1, 1, 52, 7, 0, 4, 1, 1, 108, 1, 49, 1, 2, 108, 105, 1, 50, 1, 3, 108, 105, 109, 1, 51, 1, 4, 108, 105, 109, 105, 1, 53, 2],
+    # six options: o4 / o5 by name, "o" (ambiguous prefix), "o4x", "o6" (no option), excluded name given by name
+    [6, 2, 0, 0, 0, 2, 0, 0, 0, 2, 0, 0, 0, 2, 0, 0, 0, 3, 0, 0, 0, 3, 0, 0, 1, 1, 100, 7, 1, 1, 5, 5, 1, 2, 111, 52, 1, 97, 1, 2, 111, 53, 1, 98,
+     1, 1, 111, 1, 99, 1, 3, 111, 52, 120, 1, 100, 1, 2, 111, 54, 1, 101, 2],
     # declining int, default '4', three runs: run 1 [o0=3][o0=7] defaults; run 2 no source, defaults; run 3 [o0=x (refused)] [o0=8] defaults
     [1, 10, 0, 0, 1, 1, 52, 1, 0, 1, 0, 1, 51, 1, 0, 1, 0, 1, 55, 2, 6, 2, 6, 1, 0, 1, 0, 1, 120, 1, 0, 1, 0, 1, 56, 2],
 ]
@@ -856,12 +1072,14 @@ def gen(seed, tier):
     out = [(c, {'kind': 'fixed'}) for c in FIXED]
     while len(out) < total - 1:
         r = rnd.random()
-        if r < 0.25:
+        if r < 0.22:
             out.append((gen_foreign(rnd), {'kind': 'foreign-names-in-parsed-set'}))
-        elif r < 0.45:
+        elif r < 0.40:
             out.append((gen_runs(rnd), {'kind': 'several-runs-over-the-same-targets'}))
-        elif r < 0.65:
+        elif r < 0.57:
             out.append((gen_declining(rnd), {'kind': 'typed-notifier-declines-ownership'}))
+        elif r < 0.75:
+            out.append((gen_by_name(rnd), {'kind': 'source-filled-by-name'}))
         else:
             out.append((gen_case(rnd), {'kind': 'random'}))
     out.append((LAST, {'kind': 'fixed'}))
@@ -873,7 +1091,16 @@ def encode(raw_opts, ops):
     for o in raw_opts:
         e += o
     for op in ops:
-        if op[0] == 'assign':
+        if op[0] == 'assign' and len(op) > 3:
+            e += [7]
+            e += [0] if op[1] is None else [1, len(op[1])] + list(op[1])
+            e += [len(op[3])]
+            for r in op[3]:
+                if r[0] == 'p':
+                    e += [0, r[1], len(r[2])] + list(r[2])
+                else:
+                    e += [1, len(r[1])] + list(r[1]) + [len(r[2])] + list(r[2])
+        elif op[0] == 'assign':
             e += [1]
             e += [0] if op[1] is None else [1, len(op[1])] + list(op[1])
             e += [len(op[2])]
@@ -925,6 +1152,18 @@ def shrink(case, fails):
         for i, op in enumerate(ops):
             if op[0] != 'assign':
                 continue
+            if len(op) > 3:
+                for j in range(len(op[3]) - 1, -1, -1):
+                    t = list(ops)
+                    t[i] = assign_n(len(raw), op[1], op[3][:j] + op[3][j + 1:])
+                    if fails(encode(raw, t)):
+                        ops, changed, op = t, True, t[i]
+                if op[1]:
+                    t = list(ops)
+                    t[i] = assign_n(len(raw), None, op[3])
+                    if fails(encode(raw, t)):
+                        ops, changed = t, True
+                continue
             for j in range(len(op[2]) - 1, -1, -1):
                 t = list(ops)
                 t[i] = ('assign', op[1], op[2][:j] + op[2][j + 1:])
@@ -938,11 +1177,16 @@ def shrink(case, fails):
         # drop the last option when nothing refers to it
         if len(raw) > 1:
             last = len(raw) - 1
-            if not any((op[0] == 'assign' and any(i >= last for i, _ in op[2])) or op[0] in ('add', 'assign2') for op in ops):
+            if not any((op[0] == 'assign' and (len(op) > 3 or any(i >= last for i, _ in op[2]))) or op[0] in ('add', 'assign2') for op in ops):
                 if fails(encode(raw[:-1], ops)):
                     raw, changed = raw[:-1], True
+            elif any(op[0] == 'assign' and len(op) > 3 for op in ops) and not any(op[0] in ('add', 'assign2') for op in ops):
+                # by-name sources: what a key denotes depends on the number of options - re-resolve and try
+                t = [assign_n(last, op[1], [r for r in op[3] if r[0] != 'p' or r[1] < last]) if (op[0] == 'assign' and len(op) > 3) else op for op in ops]
+                if not any(op[0] == 'assign' and len(op) == 3 and any(i >= last for i, _ in op[2]) for op in t) and fails(encode(raw[:-1], t)):
+                    raw, ops, changed = raw[:-1], t, True
     return encode(raw, ops)
 
 
 def mutate(case, rnd):
-    return [gen_case(rnd) for _ in range(50)]
+    return [gen_case(rnd) for _ in range(35)] + [gen_by_name(rnd) for _ in range(15)]
